@@ -20,3 +20,13 @@ from contracts import C19_frames as F19
 for t in F19.P.tasks:
     if t.name in ("sources", "globals"):
         P.tasks.append(Task(P, "no_hidden_shared_state." + t.name, t.fn, t.func, files=t.files or F19.P.files, timeout=t.timeout))
+
+
+# "a simulation equals its own restored snapshot": incremental snapshots are produced by reb_binary_diff (output_option 0) with
+# the SAME walk that decides equality (output_option 2); the restored state is the overlay of that delta, so the delta stream
+# must be well formed for every pair of field sequences (C06 delta contract: every header is followed by exactly `size` payload
+# bytes, a vanished field is emitted with size 0, the payload is the current one).  Re-registered here.
+from contracts import C06_diff as D6
+for t in D6.P.tasks:
+    P.tasks.append(Task(P, "restored_snapshot_delta." + t.name, t.fn, t.func, files=t.files or D6.P.files, timeout=t.timeout))
+P.assumptions += ["shared with C06: " + a for a in D6.P.assumptions]
